@@ -48,6 +48,46 @@ type SMP struct {
 	papb, qaqb       *big.Int
 	ForceA2, ForceA3 *big.Int // when set, used instead of random exponents (degenerate provers)
 	ForceB2, ForceB3 *big.Int
+	// Short names one value of the messages this side builds ("g2a", "c2", "d2", ... see the step functions) that
+	// is to come out with a zero top byte, i.e. one byte shorter than usual once serialised as an MPI. An honest
+	// prover hits each of these by chance once in 128-256 runs; the randomness is simply re-drawn until it does.
+	Short string
+	// ShortTries counts the re-draws spent on it.
+	ShortTries int
+}
+
+func isShort(v *big.Int, full int) bool { return v.BitLen() <= full-8 && v.Sign() > 0 }
+
+// want reports whether the value called name is the one to be made short and is not short yet.
+func (s *SMP) redo(name string, v *big.Int, full int) bool {
+	if s.Short != name || isShort(v, full) || s.ShortTries > 20000 {
+		return false
+	}
+	s.ShortTries++
+	return true
+}
+
+// shortExp draws an exponent (or takes the forced one) and returns it with base^e, re-drawing while the power has to be short and is not.
+func (s *SMP) shortExp(name string, force *big.Int, base *big.Int) (e, v *big.Int) {
+	for {
+		e = pick(force, s.Rnd)
+		v = expP(base, e)
+		if force != nil || !s.redo(name, v, 1536) {
+			return
+		}
+	}
+}
+
+// proofLog builds the proof of knowledge (c, d) of x for generator G with hash version ver.
+func (s *SMP) proofLog(ver byte, x *big.Int, cName, dName string) (c, d *big.Int) {
+	for {
+		r := s.Rnd()
+		c = hashInt(ver, expP(G, r))
+		d = subQ(r, mulI(x, c))
+		if !s.redo(cName, c, 256) && !s.redo(dName, d, 1535) {
+			return
+		}
+	}
 }
 
 func (s *SMP) group(name string, v *big.Int) error {
@@ -68,15 +108,46 @@ func pick(force *big.Int, rnd func() *big.Int) *big.Int {
 	return v
 }
 
+// coords draws r4 and sets s.pb = g3^r4, s.qb = g1^r4 g2^secret with the proof (cP, D5, D6) under hash version ver.
+func (s *SMP) coords(ver byte, pName, qName, cName, d5Name, d6Name string) (r4, cp, d5, d6 *big.Int) {
+	for {
+		r4 = s.Rnd()
+		s.pb = expP(s.g3, r4)
+		s.qb = mulP(expP(G, r4), expP(s.g2, s.Secret))
+		if !s.redo(pName, s.pb, 1536) && !s.redo(qName, s.qb, 1536) {
+			break
+		}
+	}
+	for {
+		r5, r6 := s.Rnd(), s.Rnd()
+		cp = hashInt(ver, expP(s.g3, r5), mulP(expP(G, r5), expP(s.g2, r6)))
+		d5 = subQ(r5, mulI(r4, cp))
+		d6 = subQ(r6, mulI(s.Secret, cp))
+		if !s.redo(cName, cp, 256) && !s.redo(d5Name, d5, 1535) && !s.redo(d6Name, d6, 1535) {
+			return
+		}
+	}
+}
+
+// proofEq proves that x is the discrete log of g^x and of (Qa/Qb)^x (cR, D7).
+func (s *SMP) proofEq(ver byte, x *big.Int, cName, dName string) (cr, d7 *big.Int) {
+	for {
+		r7 := s.Rnd()
+		cr = hashInt(ver, expP(G, r7), expP(s.qaqb, r7))
+		d7 = subQ(r7, mulI(x, cr))
+		if !s.redo(cName, cr, 256) && !s.redo(dName, d7, 1535) {
+			return
+		}
+	}
+}
+
 // Step1 builds [g2a, c2, D2, g3a, c3, D3].
 func (s *SMP) Step1() []*big.Int {
-	s.a2, s.a3 = pick(s.ForceA2, s.Rnd), pick(s.ForceA3, s.Rnd)
-	r2, r3 := s.Rnd(), s.Rnd()
-	g2a, g3a := expP(G, s.a2), expP(G, s.a3)
-	c2 := hashInt(1, expP(G, r2))
-	d2 := subQ(r2, mulI(s.a2, c2))
-	c3 := hashInt(2, expP(G, r3))
-	d3 := subQ(r3, mulI(s.a3, c3))
+	var g2a, g3a *big.Int
+	s.a2, g2a = s.shortExp("g2a", s.ForceA2, G)
+	s.a3, g3a = s.shortExp("g3a", s.ForceA3, G)
+	c2, d2 := s.proofLog(1, s.a2, "c2", "d2")
+	c3, d3 := s.proofLog(2, s.a3, "c3", "d3")
 	return []*big.Int{g2a, c2, d2, g3a, c3, d3}
 }
 
@@ -111,19 +182,14 @@ func (s *SMP) Step2(m []*big.Int) ([]*big.Int, error) {
 	}
 	g2a, g3a := m[0], m[3]
 	s.g3a = g3a
-	s.b2, s.b3 = pick(s.ForceB2, s.Rnd), pick(s.ForceB3, s.Rnd)
-	r2, r3, r4, r5, r6 := s.Rnd(), s.Rnd(), s.Rnd(), s.Rnd(), s.Rnd()
-	g2b, g3b := expP(G, s.b2), expP(G, s.b3)
-	c2 := hashInt(3, expP(G, r2))
-	d2 := subQ(r2, mulI(s.b2, c2))
-	c3 := hashInt(4, expP(G, r3))
-	d3 := subQ(r3, mulI(s.b3, c3))
+	var g2b, g3b *big.Int
+	s.b2, g2b = s.shortExp("g2b", s.ForceB2, G)
+	s.b3, g3b = s.shortExp("g3b", s.ForceB3, G)
+	c2, d2 := s.proofLog(3, s.b2, "c2b", "d2b")
+	c3, d3 := s.proofLog(4, s.b3, "c3b", "d3b")
 	s.g2, s.g3 = expP(g2a, s.b2), expP(g3a, s.b3)
-	s.pb = expP(s.g3, r4)
-	s.qb = mulP(expP(G, r4), expP(s.g2, s.Secret))
-	cp := hashInt(5, expP(s.g3, r5), mulP(expP(G, r5), expP(s.g2, r6)))
-	d5 := subQ(r5, mulI(r4, cp))
-	d6 := subQ(r6, mulI(s.Secret, cp))
+	r4, cp, d5, d6 := s.coords(5, "pb", "qb", "cp", "d5", "d6")
+	_ = r4
 	return []*big.Int{g2b, c2, d2, g3b, c3, d3, s.pb, s.qb, cp, d5, d6}, nil
 }
 
@@ -164,12 +230,10 @@ func (s *SMP) Step3(m []*big.Int) ([]*big.Int, error) {
 	}
 	s.g2, s.g3, s.g3b = g2, g3, m[3]
 	pb, qb := m[6], m[7]
-	r4, r5, r6, r7 := s.Rnd(), s.Rnd(), s.Rnd(), s.Rnd()
-	pa := expP(g3, r4)
-	qa := mulP(expP(G, r4), expP(g2, s.Secret))
-	cp := hashInt(6, expP(g3, r5), mulP(expP(G, r5), expP(g2, r6)))
-	d5 := subQ(r5, mulI(r4, cp))
-	d6 := subQ(r6, mulI(s.Secret, cp))
+	s.pb, s.qb = nil, nil
+	_, cp, d5, d6 := s.coords(6, "pa", "qa", "cpa", "d5a", "d6a")
+	pa, qa := s.pb, s.qb
+	s.pb, s.qb = pb, qb
 	if s.qaqb, err = divP(qa, qb); err != nil {
 		return nil, err
 	}
@@ -177,8 +241,7 @@ func (s *SMP) Step3(m []*big.Int) ([]*big.Int, error) {
 		return nil, err
 	}
 	ra := expP(s.qaqb, s.a3)
-	cr := hashInt(7, expP(G, r7), expP(s.qaqb, r7))
-	d7 := subQ(r7, mulI(s.a3, cr))
+	cr, d7 := s.proofEq(7, s.a3, "cr", "d7")
 	return []*big.Int{pa, qa, cp, d5, d6, ra, cr, d7}, nil
 }
 
@@ -220,10 +283,9 @@ func (s *SMP) Step4(m []*big.Int) (out []*big.Int, match bool, err error) {
 	if err != nil {
 		return nil, false, err
 	}
-	r7 := s.Rnd()
 	rb := expP(qaqb, s.b3)
-	cr := hashInt(8, expP(G, r7), expP(qaqb, r7))
-	d7 := subQ(r7, mulI(s.b3, cr))
+	s.qaqb = qaqb
+	cr, d7 := s.proofEq(8, s.b3, "crb", "d7b")
 	match = expP(m[5], s.b3).Cmp(papb) == 0
 	return []*big.Int{rb, cr, d7}, match, nil
 }
